@@ -186,11 +186,12 @@ Proof.
 Qed.
 
 (** the tail end: the first stored height is the old Tail itself *)
-Lemma tail_loop_steps s sp T H fails nh cnt : inv s sp -> pend_h s = ∅ -> sHT sp = Some (T, H) ->
-  let '(s1, _, a, _) := delete_seq s (script_of fails) nh T (S cnt) [] in
+Lemma tail_loop_steps s sp T H fails nh cnt0 : inv s sp -> pend_h s = ∅ -> sHT sp = Some (T, H) ->
+  cnt0 <> 0%nat ->
+  let '(s1, _, a, _) := delete_seq s (script_of fails) nh T cnt0 [] in
   steps ptrs_sound s s1 /\ (s1 = s \/ Jt T s1).
 Proof.
-  intros I Hp EHT. pose proof (proj1 I) as [M HS P]. unfold ptrs_core in P. rewrite EHT in P.
+  intros I Hp EHT Hc. destruct cnt0 as [|cnt]; [contradiction|]. pose proof (proj1 I) as [M HS P]. unfold ptrs_core in P. rewrite EHT in P.
   destruct P as (P1 & P2 & P3 & P4 & P5 & P6 & P7).
   destruct (inv_TH s sp T H (proj1 I) EHT) as (HT & HH & _).
   assert (PC : pchain s) by (apply pstored_pchain; auto; exact (inv_pstored s sp (proj1 I))).
@@ -224,10 +225,9 @@ Qed.
 Lemma set_tail_steps_ps s1 sp2 a H s2 : pend_h s1 = ∅ ->
   nb s1 a = Found (c a) -> headp s1 = Some (c H) -> inr H -> a <= H ->
   d_head s1 = Some (h_id (c H)) ->
-  set_tail s1 a = (s2, true) -> inv s2 sp2 ->
-  ptrs_sound s1 \/ True -> steps ptrs_sound s1 s2.
+  set_tail s1 a = (s2, true) -> inv s2 sp2 -> steps ptrs_sound s1 s2.
 Proof.
-  intros Hp Hnb Hhd HH Hle Dh E I2 _.
+  intros Hp Hnb Hhd HH Hle Dh E I2.
   assert (F : set_tail s1 a = (write (write (set_tailp s1 (Some (c a))) [WPutTail (h_id (c a))]) [WPutHead (h_id (c H))], true)).
   { apply set_tail_form; auto. rewrite (@ch_height c U CH) by auto. apply N.ltb_ge. lia. }
   rewrite F in E. injection E as E.
@@ -237,6 +237,197 @@ Proof.
   apply (st_write _ (set_tailp s1 (Some (c a))) [WPutTail (h_id (c a))]); fold y1.
   - apply (ps_disk_pred (write y1 [WPutHead (h_id (c H))])); auto. unfold disk_eq. cbn. split_and!; auto.
   - apply steps_write1. exact Ps2.
+Qed.
+
+
+Lemma wipe_steps_ps s1 : steps ptrs_sound s1 (wipe s1).
+Proof.
+  unfold wipe. apply (st_mem _ s1 (deinit s1) _ (mem_deinit s1)).
+  apply (st_write _ (deinit s1) [WDelHead]); [apply ps_head_none; reflexivity|].
+  apply steps_write1. apply ps_head_none. reflexivity.
+Qed.
+
+(** the deletion proper, from a state with an empty write batch *)
+Theorem synced_steps_ps s sp from to nh fails : inv s sp -> pend_h s = ∅ ->
+  steps ptrs_sound s (fst (fst (delete_range_synced s (script_of fails) nh from to))).
+Proof.
+  intros I Hp. pose proof I as [I0 DK]. pose proof I0 as [M HS P]. unfold ptrs_core in P.
+  pose proof (@ch_height c U CH) as c_height. pose proof (@ch_bound c U CH) as Ub.
+  destruct (sHT sp) as [[T H]|] eqn:EHT.
+  2: { destruct P as (P1 & _). unfold delete_range_synced. rewrite P1. cbn. apply st_refl. }
+  destruct P as (P1 & P2 & P3 & P4 & P5 & P6 & P7).
+  destruct (inv_TH s sp T H I0 EHT) as (HT & HH & _).
+  assert (PS : pstored s) by (eapply inv_pstored; eauto).
+  assert (PC : pchain s) by (apply pstored_pchain; auto).
+  unfold disk_ok in DK. rewrite EHT in DK. destruct (DK Hp) as [D1 D2].
+  assert (Ps : ptrs_sound s) by (apply (inv_ptrs_sound s sp I Hp)).
+  unfold delete_range_synced. rewrite P1, P2. cbv zeta. rewrite !c_height by auto.
+  rewrite !(wrap64_small (H + 1)) by (destruct HH; lia).
+  destruct (N.leb_spec to from) as [Hle|Hlt]; [cbn; apply st_refl|].
+  destruct (N.ltb_spec H from) as [H1|H1]; [cbn; apply st_refl|].
+  destruct (N.leb_spec to T) as [H2|H2]; [cbn; apply st_refl|]. cbn [orb].
+  destruct (N.eqb_spec from T) as [uT|uT]; destruct (N.eqb_spec to (H + 1)) as [uH|uH]; cbn [andb negb].
+  - (* whole store *)
+    subst from to. rewrite (nb_not_stored s (H + 1)) by auto.
+    pose proof (tail_loop_steps s sp T H fails nh (N.to_nat (H + 1 - T)) I Hp EHT) as L.
+    destruct (delete_seq_spec (sS sp) fails nh (N.to_nat (H + 1 - T)) s T [] M PC) as (s1 & E & M1 & SP1 & St1 & _).
+    { intros m _. apply HS. }
+    pose proof (delete_seq_pend_empty (script_of fails) nh (N.to_nat (H + 1 - T)) s T [] Hp) as Hp1.
+    destruct (dseq_facts (sS sp) nh fails T (H + 1) Hlt) as (D1' & D2' & _ & D4'). cbn zeta in *.
+    rewrite E in L, Hp1 |- *. cbn [fst] in Hp1. rewrite D2'. rewrite D1' in St1 |- *.
+    destruct L as [L _]; [lia|]. destruct SP1 as (Q1 & Q2 & Q3 & Q4 & Q5).
+    destruct (fail_height (sS sp) nh fails T (H + 1)) as [k|] eqn:Efh; cbn [fst].
+    + destruct (D4' k eq_refl) as [Hk1 Hk2].
+      destruct (tail_cut_inv s sp T H s1 k I0 EHT M1) as (s2 & E2 & I2); try congruence; try lia; auto.
+      rewrite E2. cbn [fst]. eapply steps_trans; [exact L|].
+      assert (Sk : stored s1 k) by (apply St1; split; [apply HS; auto|lia]).
+      assert (Hik : inr k) by (eapply stored_inr; eauto).
+      refine (set_tail_steps_ps s1 _ k H s2 Hp1 _ _ HH _ _ E2 I2); try congruence; try lia.
+      apply nb_stored; auto. apply (ptrs_pchain s1 T H); congruence.
+    + eapply steps_trans; [exact L|apply wipe_steps_ps].
+  - (* tail side *)
+    subst from. destruct (N.ltb_spec (H + 1) to) as [H3|H3]; [cbn; apply st_refl|].
+    pose proof (tail_loop_steps s sp T H fails nh (N.to_nat (to - T)) I Hp EHT) as L.
+    destruct (delete_seq_spec (sS sp) fails nh (N.to_nat (to - T)) s T [] M PC) as (s1 & E & M1 & SP1 & St1 & _).
+    { intros m _. apply HS. }
+    pose proof (delete_seq_pend_empty (script_of fails) nh (N.to_nat (to - T)) s T [] Hp) as Hp1.
+    destruct (dseq_facts (sS sp) nh fails T to Hlt) as (D1' & D2' & _ & D4'). cbn zeta in *.
+    rewrite E in L, Hp1 |- *. cbn [fst] in Hp1. rewrite D1' in St1 |- *.
+    destruct L as [L _]; [lia|]. destruct SP1 as (Q1 & Q2 & Q3 & Q4 & Q5).
+    set (a := match fail_height (sS sp) nh fails T to with Some k => k | None => to end) in *.
+    assert (Ha : T <= a <= H).
+    { unfold a. destruct (fail_height (sS sp) nh fails T to) as [k|] eqn:Efh; [destruct (D4' k eq_refl)|]; lia. }
+    destruct (tail_cut_inv s sp T H s1 a I0 EHT M1) as (s2 & E2 & I2); try congruence; try lia; auto.
+    rewrite E2. cbn [fst]. eapply steps_trans; [exact L|].
+    assert (Sk : stored s1 a) by (apply St1; split; [apply P5; lia|lia]).
+    refine (set_tail_steps_ps s1 _ a H s2 Hp1 _ _ HH _ _ E2 I2); try congruence; try lia.
+    apply nb_stored; auto. apply (ptrs_pchain s1 T H); congruence.
+  - (* head side *)
+    subst to. destruct (N.ltb_spec from T) as [H3|H3]; [cbn; apply st_refl|].
+    assert (Sf : stored s (from - 1)) by (apply P5; lia).
+    assert (HK : inr (from - 1)) by (eapply stored_inr; eauto).
+    rewrite (nb_stored s (from - 1)) by auto.
+    set (K := from - 1) in *.
+    set (s0 := write s [WPutTail (h_id (c T)); WPutHead (h_id (c K))]).
+    assert (SM0 : same_maps s s0) by (unfold same_maps; cbn; tauto).
+    assert (Hd0 : headp s0 = Some (c H)) by exact P1.
+    assert (Tl0 : tailp s0 = Some (c T)) by exact P2.
+    assert (Dt0 : d_tail s0 = Some (h_id (c T))) by reflexivity.
+    assert (M0 : minv s0) by (eapply minv_ext; eauto).
+    assert (PC0 : pchain s0) by (apply (ptrs_pchain s0 T H); auto).
+    assert (Ps0 : ptrs_sound s0).
+    { intros T' H' Et Eh HT' HH' OT OH. cbn in Et, Eh. injection Et as Et. injection Eh as Eh.
+      apply (@ch_inj c U CH) in Et; auto. apply (@ch_inj c U CH) in Eh; auto. subst T' H'.
+      split; [unfold K; lia|]. intros n Hn. change (on_disk s n). apply stored_on_disk; auto. apply P5. unfold K in Hn. lia. }
+    assert (J0 : Jh K s0) by (split; auto).
+    pose proof (delete_seq_steps2 (Jh K) (script_of fails) nh (Jh_disk K)) as L.
+    specialize (L (fun x n Jx => conj (proj1 Jx) (ps_disk_pred x _ (conj eq_refl (conj eq_refl (conj eq_refl eq_refl))) (proj2 Jx)))).
+    specialize (L (fun x Jx => proj2 Jx)).
+    specialize (L (N.to_nat (H + 1 - from)) s0 from []).
+    assert (JH : forall x m, from <= m -> inr m -> Jh K x -> Jh K (write x [WDelH (h_id (c m))])).
+    { intros x m Hm Hi Jx. apply Jh_del_hdr; auto. unfold K. lia. }
+    specialize (L JH M0 J0).
+    destruct (delete_seq_spec (sS sp) fails nh (N.to_nat (H + 1 - from)) s0 from [] M0 PC0) as (s1 & E & M1 & SP1 & St1 & Same).
+    { intros m _. rewrite (same_maps_stored s s0 m SM0). apply HS. }
+    destruct (dseq_facts (sS sp) nh fails from (H + 1) Hlt) as (D1' & _ & _ & D4'). cbn zeta in *.
+    rewrite E in L |- *. destruct L as [L [Jd Js]]. rewrite D1' in St1, Same |- *.
+    destruct SP1 as (Q1 & Q2 & Q3 & Q4 & Q5).
+    set (a := match fail_height (sS sp) nh fails from (H + 1) with Some k => k | None => H + 1 end) in *.
+    assert (Ha : from <= a).
+    { unfold a. destruct (fail_height (sS sp) nh fails from (H + 1)) as [k|] eqn:Efh; [destruct (D4' k eq_refl)|]; lia. }
+    apply (st_write _ s [WPutTail (h_id (c T)); WPutHead (h_id (c K))]); fold s0; auto.
+    eapply steps_trans; [exact L|].
+    destruct (N.ltb_spec from a) as [H4|H4].
+    + assert (SK : stored s1 K).
+      { apply St1. rewrite (same_maps_stored s s0 K SM0). split; auto. unfold K. lia. }
+      assert (PC1 : pchain s1) by (apply (ptrs_pchain s1 T H); auto; congruence).
+      rewrite (set_head_form s1 K (c K) (c T)); [|apply nb_stored; auto|congruence]. cbn [fst].
+      set (y0 := set_hsh (set_headp s1 (Some (c K))) (h_height (c K))).
+      apply (st_mem _ s1 y0); [split; [reflexivity|unfold disk_eq; cbn; tauto]|].
+      apply (st_write _ y0 [WPutHead (h_id (c K))]).
+      * apply (ps_disk_pred s1); auto. unfold disk_eq. cbn. split_and!; auto.
+      * apply steps_write1. apply (ps_disk_pred s1); auto. unfold disk_eq. cbn. split_and!; auto; congruence.
+    + assert (s1 = s0) as -> by (apply Same; lia). cbn [fst].
+      apply steps_write1. apply (ps_disk_pred s); auto. unfold disk_eq. cbn. split_and!; auto.
+  - cbn. apply st_refl.
+Qed.
+
+
+Lemma ps_tail_none x : d_tail x = None -> ptrs_sound x.
+Proof. intros E T H Et. congruence. Qed.
+
+Lemma start_steps_ps x : ptrs_sound x -> steps ptrs_sound x (start x).
+Proof.
+  intros Ps. unfold start.
+  assert (T1 : steps ptrs_sound x (read_head x) /\ ptrs_sound (read_head x)).
+  { unfold read_head. destruct (d_head x); [|split; auto; apply st_refl].
+    destruct (get x n) eqn:E.
+    - split; [eapply st_mem; [apply mem_set_headp|apply steps_mem1, mem_set_hsh]|].
+      apply (ps_disk_pred x); auto. unfold disk_eq. cbn. tauto.
+    - split; [apply steps_write1|]; apply ps_head_none; reflexivity.
+    - split; [apply steps_write1|]; apply ps_head_none; reflexivity.
+    - split; [apply steps_write1|]; apply ps_head_none; reflexivity. }
+  destruct T1 as [T1 D1]. set (x1 := read_head x) in *.
+  eapply steps_trans; [exact T1|].
+  unfold read_tail. destruct (d_tail x1); [|apply st_refl].
+  destruct (get x1 n) eqn:E.
+  - apply steps_mem1, mem_set_tailp.
+  - apply steps_write1. apply ps_tail_none. reflexivity.
+  - apply steps_write1. apply ps_tail_none. reflexivity.
+  - apply steps_write1. apply ps_tail_none. reflexivity.
+Qed.
+
+Lemma sync_steps_ps s sp : inv s sp -> ptrs_sound s -> steps ptrs_sound s (sync s) /\ ptrs_sound (sync s).
+Proof.
+  intros I Ps. destruct (sync_inv s sp I) as [I' Hp]. split.
+  - unfold sync. apply (flush_one_steps_ps s None sp); auto.
+  - apply (inv_ptrs_sound _ sp I' Hp).
+Qed.
+
+Theorem op_steps_ps s sp o : inv s sp -> ptrs_sound s -> op_ok U o ->
+  steps ptrs_sound s (fst (fst (mstep c s o))).
+Proof.
+  intros I Ps Hok. unfold mstep. destruct o as [ns|from to nh fails| | |]; cbn [to_op step].
+  - cbn in Hok. destruct (append_inv s sp ns I Hok) as [I' _].
+    destruct ns as [|n0 ns']; [cbn; apply st_refl|].
+    set (ns := n0 :: ns') in *. change (map c ns) with (c n0 :: map c ns') in *. cbn [append] in *.
+    change (c n0 :: map c ns') with (map c ns) in *.
+    destruct (flush_one s (Some (map c ns))) as [s' r] eqn:E. cbn [fst] in *.
+    replace s' with (fst (flush_one s (Some (map c ns)))) in * by (rewrite E; reflexivity).
+    apply (flush_one_steps_ps s _ _ Ps I').
+  - destruct (sync_steps_ps s sp I Ps) as [T1 Ps1]. destruct (sync_inv s sp I) as [I1 Hp1].
+    unfold delete_range. eapply steps_trans; [exact T1|]. apply (synced_steps_ps (sync s) sp); auto.
+  - cbn [fst]. apply (sync_steps_ps s sp I Ps).
+  - destruct (sync_steps_ps s sp I Ps) as [T1 Ps1].
+    unfold stop. destruct (flush_one s None) as [s4 o4] eqn:E.
+    assert (s4 = sync s) by (unfold sync; rewrite E; reflexivity). subst s4.
+    pose proof (flush_one_ok s None) as Eo. rewrite E in Eo. cbn in Eo. subst o4. cbn [fst].
+    eapply steps_trans; [exact T1|]. eapply st_mem; [apply mem_deinit|].
+    apply start_steps_ps. apply (ps_disk_pred (sync s)); auto. apply disk_eq_sym, mem_deinit.
+  - destruct (sync_steps_ps s sp I Ps) as [T1 Ps1].
+    unfold stop. destruct (flush_one s None) as [s4 o4] eqn:E.
+    assert (s4 = sync s) by (unfold sync; rewrite E; reflexivity). subst s4.
+    pose proof (flush_one_ok s None) as Eo. rewrite E in Eo. cbn in Eo. subst o4. cbn [fst].
+    eapply steps_trans; [exact T1|]. eapply st_mem; [apply mem_deinit|]. eapply st_mem; [apply mem_fresh|].
+    apply start_steps_ps. apply (ps_disk_pred (sync s)); auto.
+    eapply disk_eq_trans; [apply disk_eq_sym, mem_deinit|apply disk_eq_sym, mem_fresh].
+Qed.
+
+(** the pointers are sound after every single entry of the write log of every history *)
+Theorem history_prefixes_ps b ops : Forall (op_ok U) ops ->
+  let s := run c (st0 b) ops in
+  prefixes_ok ptrs_sound b s /\ ptrs_sound s.
+Proof.
+  intros F.
+  assert (G : forall s sp, inv s sp -> logged b s -> prefixes_ok ptrs_sound b s -> ptrs_sound s ->
+              prefixes_ok ptrs_sound b (run c s ops) /\ ptrs_sound (run c s ops)).
+  { induction F as [|o ops Ho F IH]; intros s sp I L Pre D; cbn; auto.
+    pose proof (op_steps_ps s sp o I D Ho) as T.
+    destruct (steps_ok ptrs_sound b ps_disk_pred _ _ T L Pre) as [L' Pre'].
+    apply (IH _ (spec_op sp o)); auto.
+    - apply step_refines; auto.
+    - apply (steps_P ptrs_sound ps_disk_pred _ _ T D). }
+  apply (G (st0 b) spec0); auto using inv_st0, logged_st0, ps_st0. apply prefixes_st0, ps_st0.
 Qed.
 
 End chain.
